@@ -80,6 +80,7 @@ def _can_decrypt(bob, ciphertext):
         return None
 
 
+@ST.deterministic("c17-h_history")
 def h_history(ctx, n):
     from yowsup.axolotl import exceptions as yex
     from axolotl.untrustedidentityexception import UntrustedIdentityException as AxUntrusted
@@ -151,6 +152,7 @@ def h_history(ctx, n):
 
 
 # ---- layer reaction with symbolic JIDs ------------------------------------------------------------------------------------------
+@ST.deterministic("c17-h_step_getkeys")
 def h_step_getkeys(ctx):
     """getKeysFor.onSuccess: an untrusted identity reported by the manager is an error for that jid and the message is not sent"""
     from yowsup.axolotl import exceptions as yex
@@ -183,6 +185,7 @@ def h_step_getkeys(ctx):
             ("no plaintext leaves in either case", all(m.getChild("proto") is None for m in msgs))]
 
 
+@ST.deterministic("c17-h_step_receive")
 def h_step_receive(ctx):
     """AxolotlReceivelayer.handleEncMessage when the manager reports an untrusted identity: ignored unless the application
     switched auto-trust ON (option unset or off: refused; nothing is trusted behind the application's back)"""
